@@ -11,8 +11,13 @@ import (
 	"path/filepath"
 	"strings"
 
+	"time"
+
 	"golang.zx2c4.com/wireguard/device"
 	"golang.zx2c4.com/wireguard/replay"
+
+	"wgv/cosim"
+	"wgv/ref"
 )
 
 type Op struct {
@@ -41,6 +46,50 @@ func runImpl(ops []Op) []bool {
 		}
 	}
 	return obs
+}
+
+// runDevice replays a history against a real device: every Validate op is an
+// authenticated transport message with that counter sent by the ref peer, the
+// verdict is whether the inner packet reaches the TUN; Reset is a new
+// handshake (a fresh session key has a fresh filter).  Only histories whose
+// limit is the device's RejectAfterMessages make sense here.
+func runDevice(ops []Op) ([]bool, error) {
+	a := cosim.NewPeer("A", "192.0.2.7:5555", "10.0.0.2/32")
+	w, err := cosim.NewWorld(cosim.Config{Up: true, BindBatch: 8, TunBatch: 8}, true, a)
+	if err != nil {
+		return nil, err
+	}
+	defer w.Close()
+	hs := func() (*ref.Session, error) {
+		w.Dev.VerifShiftHandshakeTimes(cosim.NoisePK(a.Pub), time.Second)
+		_, _, sess, err := w.RefInitiates(a, a.Addr, ref.Tai64n(time.Now()))
+		return sess, err
+	}
+	sess, err := hs()
+	if err != nil {
+		return nil, err
+	}
+	inner := ref.Pad(ref.IPv4([4]byte{10, 0, 0, 2}, [4]byte{10, 9, 9, 9}, 37, 3))
+	obs := make([]bool, len(ops))
+	for i, o := range ops {
+		if o.Reset {
+			time.Sleep(time.Millisecond) // distinct whitened-or-not timestamps are ref's: nanosecond resolution
+			if sess, err = hs(); err != nil {
+				return nil, err
+			}
+			obs[i] = true
+			continue
+		}
+		out := w.Inject(a.Addr, sess.Transport(o.C, inner))
+		if !out.Settled {
+			return nil, fmt.Errorf("step %d did not settle", i)
+		}
+		obs[i] = len(out.Written) == 1
+		if len(out.Written) > 1 {
+			return nil, fmt.Errorf("step %d: %d TUN writes for one datagram", i, len(out.Written))
+		}
+	}
+	return obs, nil
 }
 
 var jumps = []uint64{1, 1, 1, 2, 3, 62, 63, 64, 65, 66, 127, 128, 129, 8063, 8064, 8065, 8127, 8128, 8129, 8130, 8191, 8192, 8193, 8255, 8256, 8257, 16383, 16384, 16385, 1 << 20, 1 << 32, 1<<32 + 1}
@@ -190,6 +239,7 @@ func main() {
 	shards := flag.Int("shards", 16, "case files")
 	out := flag.String("out", "out/C05", "output directory")
 	replayIn := flag.String("replay", "", "JSON file with cases (ops only) to run; observed verdicts are filled in")
+	ndev := flag.Int("ndev", 30, "number of histories replayed through a real device (co-simulation)")
 	corpus := flag.String("corpus", "", "directory of corpus JSON cases to prepend")
 	flag.Parse()
 	if err := os.MkdirAll(*out, 0o755); err != nil {
@@ -205,7 +255,15 @@ func main() {
 			panic(err)
 		}
 		for i := range cases {
-			cases[i].Obs = runImpl(cases[i].Ops)
+			if cases[i].Gen == "device" {
+				obs, err := runDevice(cases[i].Ops)
+				if err != nil {
+					panic(err)
+				}
+				cases[i].Obs = obs
+			} else {
+				cases[i].Obs = runImpl(cases[i].Ops)
+			}
 		}
 		*shards = 1
 	} else {
@@ -236,6 +294,37 @@ func main() {
 			}
 			ops, kind := genHistory(r, ln)
 			cases = append(cases, Case{Ops: ops, Obs: runImpl(ops), Gen: kind})
+		}
+		// the same generator through the receive path of a real device
+		type res struct {
+			c   Case
+			err error
+		}
+		ch := make(chan res, *ndev)
+		sem := make(chan struct{}, 8)
+		for i := 0; i < *ndev; i++ {
+			var ops []Op
+			for {
+				var kind string
+				ops, kind = genHistory(r, 40+r.Intn(60))
+				if kind == "dev-limit" {
+					break
+				}
+			}
+			go func(ops []Op) {
+				sem <- struct{}{}
+				defer func() { <-sem }()
+				obs, err := runDevice(ops)
+				ch <- res{Case{Ops: ops, Obs: obs, Gen: "device"}, err}
+			}(ops)
+		}
+		for i := 0; i < *ndev; i++ {
+			x := <-ch
+			if x.err != nil {
+				fmt.Fprintln(os.Stderr, "device history discarded:", x.err)
+				continue
+			}
+			cases = append(cases, x.c)
 		}
 	}
 	if *shards > len(cases) {
